@@ -7,7 +7,8 @@ from pipeline import field, parse_loc
 
 THEOREMS = ["Rva.addEdge_symm", "Rva.cutOut_symm", "Rva.cutIn_symm", "Rva.directions_symm", "Rva.deadCode_symm", "Rva.ecallTerm_symm", "Rva.symm_of_no_edges",
             "Rva.rewire_symm", "Rva.markLoop_symm", "Rva.markup_symm", "Rva.directions_rnn", "Rva.available_edges",
-            "Rva.liveness_edges", "Rva.buildCfg_noEdges", "Rva.pipeline_symm"]
+            "Rva.liveness_edges", "Rva.buildCfg_noEdges", "Rva.pipeline_symm",
+            "Rva.directions_edges", "Rva.markLoop_kinds", "Rva.pipeline_edge_kinds"]
 
 
 def oracle(src, blk, rng):
@@ -54,7 +55,7 @@ def oracle(src, blk, rng):
 
 
 def run(res, tier, seed):
-    proof_ok = proof_stage(res, "Rva.Proofs.C03c", THEOREMS, extra_modules=["Rva.Proofs.C03", "Rva.Proofs.C03b"])
+    proof_ok = proof_stage(res, "Rva.Proofs.C03d", THEOREMS, extra_modules=["Rva.Proofs.C03", "Rva.Proofs.C03b", "Rva.Proofs.C03c"])
     res.cov["rule"] = ("structured generated programs + corpus (loops at function labels, jal with other link "
                        "registers, multiple returns, handlers); prev/next symmetry after every pass, edge "
                        "kinds, and every control transfer of 3 concrete executions per program checked on the "
